@@ -14,15 +14,15 @@ def check(tree, rep, tier='quick', seed=0):
                        'capped at) and the set of inputs/lines they are combined with. The frozen oracle table sa/data/statutory_amounts.json gives, per '
                        '(year, amount, use site, status), the officially published value(s), typed independently of the repository; every triple must '
                        'match exactly. Where the bundled IRS template prints dollar amounts in the accessibility text of the box a line is mapped to, the '
-                       'values used must be among the printed ones (second, automatic oracle).')
-    rep.rule_text = 'obligation = one (year, amount id, use site, filing status) triple (R8.1) or one (year, line, printed amount) pair (R8.3)'
+                       'values used must be among the printed ones (R8.3), and where the box prints a table "filing status - amount" the value the definition yields for each status must be the one printed for that status (R8.5) - a second oracle taken from the bundled templates themselves.')
+    rep.rule_text = 'obligation = one (year, amount id, use site, filing status) triple (R8.1) or one (year, line, printed amount) pair (R8.3) or one (year, line, filing status) pairing with the printed table (R8.5)'
     rep.exhaustive = True
     rep.assumptions = ['official values in sa/data/statutory_amounts.json are the published ones (Rev. Proc. 2020-45 / 2021-45 / 2022-38, form instructions, NC D-401); amounts not in the table are not covered',
                        'tiered tables (EIC limits, NC child deduction) are compared as sets of values per status, not as tier-by-tier pairings']
     an = get_analysis(tree)
     cat = an.cat
     table = load_data('statutory_amounts.json')['entries']
-    n = 0
+    n = n_tab = 0
     ids = set()
     for y in cat.years:
         f1040 = cat.find(y, '1040')
@@ -82,6 +82,22 @@ def check(tree, rep, tier='quick', seed=0):
                     continue
                 printed = {float(m.replace(',', '')) for m in re.findall(r'\$\s?([0-9][0-9,]*)', x.speak)}
                 per = prof.get(f'{fr.name}.{line}', {})
+                # ---- R8.5 a table "status - $amount" printed in the box: paired status by status
+                tab = status_table(x.speak, list(enum.members))
+                if tab:
+                    for (role, sg), by_status in per.items():
+                        if role != 'ret' or not any(set(map(float, vs)) & set(tab.values()) for vs in by_status.values()):
+                            continue
+                        for m, want in sorted(tab.items()):
+                            have = by_status.get(m, by_status.get('*'))
+                            if have is None:
+                                continue
+                            have = sorted(float(h) for h in have)
+                            n_tab += 1
+                            ok = (have == [want]) if len(have) == 1 else (want in have)
+                            rep.ob('R8.5', f'{y}/{fr.name}.{line}/{m}', ok,
+                                   f'{y} {fr.name}.{line} gives {have} for {m} but the template box prints {want:g} for that filing status ("{x.speak[:100]}")', r.where,
+                                   sample={'line': f'{fr.name}.{line}', 'status': m, 'printed': want})
                 for (role, sg), by_status in per.items():
                     if role not in ('ret', 'rate', 'min', 'cmp'):
                         continue
@@ -93,6 +109,7 @@ def check(tree, rep, tier='quick', seed=0):
                                f'{y} {fr.name}.{line} uses {sorted(used - printed)} but the template box prints only {sorted(printed)} ("{x.speak[:90]}")', r.where,
                                sample={'line': f'{fr.name}.{line}', 'used': sorted(used), 'printed': sorted(printed)})
     rep.floor('(year, amount, site, status) triples compared', n, 450)
+    rep.floor('amounts printed per filing status on a template and paired with the definition', n_tab, 60)
     rep.floor('amount ids covered', len(ids), 45)
 
 
@@ -100,3 +117,33 @@ def _where(an, y, line):
     fn, _, ln = line.rpartition('.')
     d = an.defs.get((y, fn, ln))
     return d.where if d is not None else ''
+
+
+_STATUS = r'(?:Single|Married filing jointly|Married filing separately|Head of household|Qualifying surviving spouse|Qualifying widow\(er\)|All other filing statuses|All others)'
+
+
+def status_table(text, members):
+    """'Married filing jointly-$400,000. All other filing statuses-$200,000.' -> {member name: amount}; None unless every
+    member gets exactly one amount"""
+    t = text.replace('\u2014', '-').replace('\u2013', '-')
+    out = {}
+    rest = None
+    for m in re.finditer(r'(' + _STATUS + r'(?:(?:,? or |, )' + _STATUS + r')*)\s*[-,]\s*\$\s?([0-9][0-9,]*)', t):
+        amount = float(m.group(2).replace(',', ''))
+        for phrase in re.findall(_STATUS, m.group(1)):
+            if phrase.startswith('All other'):
+                rest = amount
+                continue
+            key = re.sub(r'[^a-z]', '', phrase.lower())
+            hit = [mm for mm in members if re.sub(r'[^a-z]', '', mm.lower()) == key or (key.startswith('qualifying') and mm.lower().startswith('qualifying'))]
+            if len(hit) != 1 or hit[0] in out:
+                return None
+            out[hit[0]] = amount
+    if not out and rest is None:
+        return None
+    if rest is not None:
+        for mm in members:
+            out.setdefault(mm, rest)
+    if set(out) != set(members):
+        return None
+    return out
